@@ -240,7 +240,62 @@ def rule_d(ctx):
     ctx.floor(R, 1)
 
 
+VALUE_CHANGING = {"np.maximum", "np.minimum", "np.clip", "np.abs", "np.fmax", "np.fmin", "np.nan_to_num", "np.round", "np.floor", "np.ceil",
+                  "darsia.convert_dtype", "skimage.img_as_float", "skimage.img_as_float64", "skimage.img_as_float32", "skimage.img_as_ubyte",
+                  "skimage.util.img_as_float", "img_as_float", "+", "-", "*", "/", "**"}
+
+
+def rule_e(ctx):
+    R = "C05.e"
+    ctx.rule(R, "the cell weights are the values of the weight image: _setup_face_weights folded with and without a weight; with a weight, "
+             "self.cell_weights is the image's array, at most converted in type (astype / asarray / copy) -- a clamp, a rescaling conversion "
+             "(skimage's img_as_float divides integer data by the dtype range) or any arithmetic on it changes the weighted cost, which must "
+             "be the cost with the user's weights and scale linearly with them; the face weights are derived from that same array")
+    from ..fold import Folder, Obj, Opaque, Raised, Refuse, Sym
+    from ..terms import nf
+
+    m = ctx.model
+    base = m.cls(WAS, "VariationalWassersteinDistance")
+    f = m.method(base, "_setup_face_weights")
+    ctx.instance(R)
+    W = Opaque("ndarray", "WEIGHT")
+    so = Obj("self", {"__class__": "VariationalWassersteinDistance", "weight": Obj("weight", {"img": W}), "regularization": Opaque("float", "REG"),
+                      "grid": Obj("grid", {"shape": Opaque("tuple", "GRIDSHAPE"), "num_faces": Opaque("int", "NUMFACES")}), "options": Opaque("dict", "OPTIONS")})
+    hav = []
+    so.fields["_harmonic_average"] = lambda a, k: (hav.append(a[0] if a else None), Opaque("ndarray", "FACEWEIGHTS"))[1]
+    fo = Folder(symbolic=True)
+    fo.func_stack.append(f.node)
+    fo.fold_all_methods = True
+    try:
+        fo.call(f.node, [so])
+    except (Refuse, Raised) as e:
+        ctx.ob(R, f.qname, "with a weight image: cell_weights is the image's array", False, f"fold of _setup_face_weights not found to be possible: {e}", f.node)
+        ctx.floor(R, 1)
+        return
+    cw = so.fields.get("cell_weights")
+    t = cw
+    while isinstance(t, Sym):
+        if t.attr in ("astype", "copy", "view") and t.recv is not None:
+            t = t.recv
+        elif t.fn in ("np.asarray", "np.array", "np.ascontiguousarray", "np.copy", "np.asfarray") and t.args:
+            t = t.args[0]
+        else:
+            break
+    if t is W:
+        ctx.ob(R, f.qname, "with a weight image: cell_weights is the image's array", True, "", f.node)
+    elif isinstance(t, Sym) and (t.fn in VALUE_CHANGING or (t.attr or "").lstrip(".") in ("clip", "round")) and "WEIGHT" in nf(t):
+        ctx.ob(R, f.qname, "with a weight image: cell_weights is the image's array", False,
+               f"cell_weights = {nf(cw)[:120]}: the weights are changed in value before they enter the discretisation -- the reported cost is not the cost with the "
+               "user's weights (integer-typed or small weights are rescaled / clamped), and it no longer scales linearly with them", f.node, evidence=True)
+    else:
+        ctx.ob(R, f.qname, "with a weight image: cell_weights is the image's array", False, f"cell_weights not found to be the weight array: {nf(cw)[:120]}", f.node)
+    if hav:
+        ctx.ob(R, f.qname, "the face weights are the harmonic average of the very array stored as cell_weights", hav[-1] is cw, f"_harmonic_average is applied to {nf(hav[-1])[:100]}", f.node, evidence=True)
+    ctx.floor(R, 1)
+
+
 def run(ctx):
+    rule_e(ctx)
     rule_d(ctx)
     rule_a(ctx)
     rule_b(ctx)
